@@ -494,7 +494,7 @@ def r15_8(ctx, rc):
                 [sg.entry],
                 avoid=lambda x: x.frame.parent is None and
                 x.cn is not None and x.cn.kind == 'cond' and
-                id(x.cn.atom) in atoms)
+                (id(x.cn.atom) in atoms or id(x.cn.ast) in atoms))
             hit = [e for e in ends if e in seen]
             key = 'type test of %s in %s' % (t.args[0].id, f.qualname)
             if hit:
